@@ -521,17 +521,31 @@ struct Range {
 }
 
 impl Range {
-    fn from_limits(min: &Option<RecordValue>, max: &Option<RecordValue>) -> Result<Option<Self>> {
-        if let (Some(RecordValue::Double(min)), Some(RecordValue::Double(max))) = (&min, &max) {
-            Ok(Some(Self::from_min_max(*min, *max)?))
-        } else if let (Some(RecordValue::Single(min)), Some(RecordValue::Single(max))) =
-            (&min, &max)
-        {
-            Ok(Some(Self::from_min_max(*min as f64, *max as f64)?))
-        } else if let (Some(RecordValue::Integer(min)), Some(RecordValue::Integer(max))) =
-            (&min, &max)
-        {
-            Ok(Some(Self::from_min_max(*min as f64, *max as f64)?))
+    /// The real value a limit stands for. Scaled integer limits are raw values,
+    /// they need scale and offset of the data type of the attribute they belong to.
+    fn limit_value(limit: &RecordValue, data_type: Option<&RecordDataType>) -> Option<f64> {
+        match limit {
+            RecordValue::Double(value) => Some(*value),
+            RecordValue::Single(value) => Some(*value as f64),
+            RecordValue::Integer(value) => Some(*value as f64),
+            RecordValue::ScaledInteger(value) => match data_type {
+                Some(RecordDataType::ScaledInteger { scale, offset, .. }) => {
+                    Some(*value as f64 * *scale + *offset)
+                }
+                _ => None,
+            },
+        }
+    }
+
+    fn from_limits(
+        min: &Option<RecordValue>,
+        max: &Option<RecordValue>,
+        data_type: Option<&RecordDataType>,
+    ) -> Result<Option<Self>> {
+        let min = min.as_ref().and_then(|v| Self::limit_value(v, data_type));
+        let max = max.as_ref().and_then(|v| Self::limit_value(v, data_type));
+        if let (Some(min), Some(max)) = (min, max) {
+            Ok(Some(Self::from_min_max(min, max)?))
         } else {
             Ok(None)
         }
@@ -585,9 +599,18 @@ impl Range {
         }
     }
 
+    fn data_type_of(pc: &PointCloud, name: RecordName) -> Option<&RecordDataType> {
+        let record = pc.prototype.iter().find(|p| p.name == name);
+        record.map(|p| &p.data_type)
+    }
+
     fn intensity_from_pointcloud(pc: &PointCloud) -> Result<Option<Self>> {
         if let Some(limits) = &pc.intensity_limits {
-            let range = Self::from_limits(&limits.intensity_min, &limits.intensity_max)?;
+            let range = Self::from_limits(
+                &limits.intensity_min,
+                &limits.intensity_max,
+                Self::data_type_of(pc, RecordName::Intensity),
+            )?;
             if range.is_some() {
                 return Ok(range);
             }
@@ -611,7 +634,7 @@ impl Range {
             red_min, red_max, ..
         }) = &pc.color_limits
         {
-            let range = Self::from_limits(red_min, red_max)?;
+            let range = Self::from_limits(red_min, red_max, Self::data_type_of(pc, RecordName::ColorRed))?;
             if range.is_some() {
                 return Ok(range);
             }
@@ -633,7 +656,11 @@ impl Range {
             ..
         }) = &pc.color_limits
         {
-            let range = Self::from_limits(green_min, green_max)?;
+            let range = Self::from_limits(
+                green_min,
+                green_max,
+                Self::data_type_of(pc, RecordName::ColorGreen),
+            )?;
             if range.is_some() {
                 return Ok(range);
             }
@@ -657,7 +684,7 @@ impl Range {
             blue_min, blue_max, ..
         }) = &pc.color_limits
         {
-            let range = Self::from_limits(blue_min, blue_max)?;
+            let range = Self::from_limits(blue_min, blue_max, Self::data_type_of(pc, RecordName::ColorBlue))?;
             if range.is_some() {
                 return Ok(range);
             }
